@@ -183,6 +183,34 @@ def events(t, rnd):
             evs.append({"k": "hsla", "h": h, "s": s10, "l": l10, "an": an, "ad": 1000, "bg": list(bg),
                         "obs": both(txt, n, bg_arg), "txt": txt, "bgarg": repr(bg_arg)})
         n += 1
+    # ---- hsl()/hsla() with more decimals than the grid, including very small non-zero values (e.g. 0.005%, hue 360.00005)
+    def fine(x_int, scale, rnd_):
+        """a decimal between grid points x_int and x_int+1 (in units of 1/scale of the printed unit); returns (text, lo, hi)"""
+        frac = rnd_.choice(["5", "05", "005", "00005", "25", "999", "123456"])
+        return frac
+    for _ in range(800 if t == "quick" else 20000):
+        h0 = rnd.choice([0, 359, 360, 59, 60, 119, 120, rnd.randrange(-360, 720)])
+        s10 = rnd.choice([0, 0, 999, rnd.randrange(0, 1000)])
+        l10 = rnd.choice([0, 499, 500, 999, rnd.randrange(0, 1000)])
+        fh, fs, fl_ = fine(0, 0, rnd), fine(0, 0, rnd), fine(0, 0, rnd)
+        # hue h0 + 0.<fh> degrees; saturation (s10 + 0.<fs>) tenths of a percent = s10/10 + 0.0<fs> percent
+        htxt = (f"{h0}.{fh}" if h0 >= 0 else f"-{-h0 - 1}.{str(10 ** len(fh) - int(fh)).zfill(len(fh))}") if rnd.random() < 0.7 else str(h0)
+        hl, hh = (h0, h0 + 1) if "." in htxt else (h0, h0)
+        stxt = f"{s10 // 10}.{s10 % 10}{fs}%" if rnd.random() < 0.7 else tenths(s10) + "%"
+        sl, sh = (s10, s10 + 1) if stxt.endswith(fs + "%") and stxt != tenths(s10) + "%" else (s10, s10)
+        ltxt = f"{l10 // 10}.{l10 % 10}{fl_}%" if rnd.random() < 0.7 else tenths(l10) + "%"
+        ll, lh = (l10, l10 + 1) if ltxt.endswith(fl_ + "%") and ltxt != tenths(l10) + "%" else (l10, l10)
+        if n % 2:
+            txt = fn_variant("hsl", [htxt, stxt, ltxt], n)
+            evs.append({"k": "hslx", "hl": hl, "hh": hh, "sl": sl, "sh": sh, "ll": ll, "lh": lh, "obs": both(txt, n), "txt": txt})
+        else:
+            an = rnd.choice([250, 500, 1000, rnd.randrange(1, 1000)])
+            a_txt = "1" if an == 1000 else ("%.3f" % (an / 1000)).rstrip("0")
+            bg = (rnd.randrange(256), rnd.randrange(256), rnd.randrange(256))
+            txt = fn_variant("hsla", [htxt, stxt, ltxt, a_txt], n)
+            evs.append({"k": "hslax", "hl": hl, "hh": hh, "sl": sl, "sh": sh, "ll": ll, "lh": lh, "an": an, "ad": 1000, "bg": list(bg),
+                        "obs": both(txt, n, bg), "txt": txt, "bgarg": repr(bg)})
+        n += 1
     # ---- the same translucent text over several different backgrounds in sequence (history: any caching must
     #      not leak one background into the next), in all three translucent spellings
     for _ in range(40 if t == "quick" else 600):
